@@ -34,6 +34,7 @@ func runC06(o *Options) *Result {
 		Gomaxprocs         []int
 		VersionsSeen       int64   `json:"versions_seen"`
 		DurationS          float64 `json:"duration_s"`
+		Stuck              string  `json:"stuck"`
 	}
 	line := strings.TrimSpace(stdout.String())
 	if i := strings.LastIndex(line, "\n"); i >= 0 {
@@ -58,6 +59,15 @@ func runC06(o *Options) *Result {
 	} else if strings.Contains(se, "panic:") || strings.Contains(se, "fatal error:") {
 		res.OracleFails++
 		res.AddViolation(&Violation{Kind: "failing-input", Class: "race:crash", What: "the engine crashed under concurrent renders and re-registrations: " + firstLines(se, 10), Replay: map[string]any{"stderr": tail(se, 6000)}})
+	}
+	if rep.Stuck != "" {
+		res.OracleFails++
+		what := rep.Stuck
+		if i := strings.Index(what, "goroutines:"); i > 0 {
+			what = what[:i]
+		}
+		res.AddViolation(&Violation{Kind: "failing-input", Class: "race:stuck", What: "concurrent renders and re-registrations blocked one another for good: " + what,
+			Replay: map[string]any{"stuck": tail(rep.Stuck, 20000), "duration": dur, "seed": o.Seed}})
 	}
 	for _, b := range rep.Bad {
 		res.OracleFails++
